@@ -4,7 +4,7 @@
 use std::collections::BTreeMap;
 
 use crate::elem::*;
-use crate::job::{join_e, line_e, route_pred, zip_e, ROUTE_FNS};
+use crate::job::{join_e, line_e, memo_e, route_pred, unique_e, zip_e, ROUTE_FNS};
 use crate::plan::*;
 use crate::probe::Ev;
 
@@ -370,6 +370,42 @@ impl<'a> Interp<'a> {
     fn unary(&mut self, s: RS, op: &UnOp) -> RS {
         let RS { v, weak, ordered } = s;
         match op {
+            UnOp::Extra(x) => match x {
+                ExtraOp::FilterMap(p, f) => RS {
+                    v: v.into_iter().filter(|e| p.test(e)).map(|e| f.apply(e)).collect(),
+                    weak,
+                    ordered,
+                },
+                ExtraOp::Flatten(f) | ExtraOp::RichFlatMap(f) => RS {
+                    v: v.into_iter().flat_map(|e| f.apply(e)).collect(),
+                    weak,
+                    ordered,
+                },
+                ExtraOp::RichFilterMap(p) => RS {
+                    v: v.into_iter().filter(|e| p.test(e)).collect(),
+                    weak,
+                    ordered,
+                },
+                ExtraOp::MemoKey => RS {
+                    v: v.into_iter().map(|e| memo_e(e.key)).collect(),
+                    weak,
+                    ordered,
+                },
+                ExtraOp::UniqueKeys => {
+                    let keys: std::collections::BTreeSet<u16> = v.iter().map(|e| e.key).collect();
+                    RS {
+                        v: keys.into_iter().map(unique_e).collect(),
+                        weak,
+                        ordered: false,
+                    }
+                }
+                ExtraOp::Inspect => RS { v, weak, ordered },
+                ExtraOp::KeyedChain(p, f) => RS {
+                    v: v.into_iter().filter(|e| p.test(e)).flat_map(|e| f.apply(e)).collect(),
+                    weak,
+                    ordered: false,
+                },
+            },
             UnOp::Map(f) => RS {
                 v: v.into_iter().map(|e| f.apply(e)).collect(),
                 weak,
